@@ -2,6 +2,7 @@ package exporter
 
 import (
 	"fmt"
+	"sort"
 	"strings"
 
 	proto "github.com/anz-bank/sysl/pkg/sysl"
@@ -40,7 +41,15 @@ func makeTypeExporter(logger *logrus.Logger) *TypeExporter {
 }
 
 func (t *TypeExporter) populateTypes(syslTypes map[string]*proto.Type, swaggerTypes spec.Definitions) error {
-	for typeName, dataType := range syslTypes {
+	// Types and their attributes are exported in name order: a composite attribute is also stored as a definition
+	// under its own name, so when two of them share a name the one kept must not depend on the iteration order.
+	typeNames := make([]string, 0, len(syslTypes))
+	for typeName := range syslTypes {
+		typeNames = append(typeNames, typeName)
+	}
+	sort.Strings(typeNames)
+	for _, typeName := range typeNames {
+		dataType := syslTypes[typeName]
 		typeSchema := spec.Schema{}
 		if t.isComposite(dataType) {
 			t.parseComposite(dataType, &typeSchema)
@@ -67,7 +76,13 @@ func (t *TypeExporter) populateTypes(syslTypes map[string]*proto.Type, swaggerTy
 		} else if valueMap.Format == "relation" {
 			memberTypes = dataType.GetRelation().GetAttrDefs()
 		}
-		for attK, attV := range memberTypes {
+		attrNames := make([]string, 0, len(memberTypes))
+		for attK := range memberTypes {
+			attrNames = append(attrNames, attK)
+		}
+		sort.Strings(attrNames)
+		for _, attK := range attrNames {
+			attV := memberTypes[attK]
 			elementSchema := spec.Schema{}
 			if t.isComposite(attV) {
 				t.parseComposite(attV, &elementSchema)
